@@ -268,7 +268,8 @@ def h_chunks(ctx, cfg):
     ctx.prove(all(b == str(size) + dfmt for b in bodies), strat + ":each-chunk-has-size-items-of-the-format", "%r" % (bodies,))
     native = "<" if sys.byteorder == "little" else ">"
     want_eff = {"default": native, None: native, "<": "<", ">": ">", "!": ">", "=": native, "@": native}[bo]
-    ctx.prove(effs <= {want_eff}, strat + ":byte-order-honoured", "effective %r wanted %r" % (effs, want_eff))
+    if dfmt != "b":        # a byte order is meaningless (unobservable) for one-byte items
+      ctx.prove(effs <= {want_eff}, strat + ":byte-order-honoured", "effective %r wanted %r" % (effs, want_eff))
   ctx.prove(res["struct"][2] == res["array"][2], "struct-and-array-strategies-agree")
   if ctx.mode == "concrete":
     kw = {"size": size, "dfmt": dfmt, "padval": pad}
